@@ -13,7 +13,8 @@ EXTERNAL_CLASSES = {
     'collections.OrderedDict', 'queue.Full', 'queue.Empty',
 }
 EXTERNAL_MODULES = {'http', 'http.client', 're', 'copy', 'collections', 'queue', 'threading', 'time', 'os', 'sys',
-                    'warnings', 'logging', 'os.path'}
+                    'warnings', 'logging', 'os.path', 'requests', 'requests.exceptions', 'requests.packages.urllib3',
+                    'requests.packages.urllib3.exceptions'}
 EXTERNAL_CONSTS = {'logging.DEBUG': 10, 'logging.INFO': 20, 'logging.WARNING': 30, 'logging.ERROR': 40,
                    're.IGNORECASE': 2, 're.I': 2, 're.UNICODE': 32, 're.U': 32, 're.DOTALL': 16,
                    're.S': 16, 're.MULTILINE': 8, 're.M': 8, 're.VERBOSE': 64, 're.X': 64, 're.ASCII': 256}
@@ -126,7 +127,42 @@ def float_cmp(ex, op, a, b, node):
 
 
 def float_binop(ex, op, a, b, node):
+    import ast as _ast
+    if isinstance(op, _ast.Div) and isinstance(a, VFloat) and isinstance(b, VInt) and not isinstance(b, VBool) \
+            and b.concrete() not in (None, 0):
+        bt = z3.Function('int2float', z3.IntSort(), FltSort)(b.t)
+        ex.used_assumptions.add('A-FLOAT: float / non-zero literal does not raise; the quotient is uninterpreted')
+        return VFloat(z3.Function('fdiv', FltSort, FltSort, FltSort)(a.t, bt))
     ex.limit('arithmetic involving floats', node)
+
+
+def is_bytes(v):
+    return (isinstance(v, VPy) and isinstance(v.obj, bytes)) or (isinstance(v, VOpaque) and v.cls == 'bytes')
+
+
+def bytes_ref(ex, v):
+    if isinstance(v, VOpaque):
+        return v.t
+    r = z3.Const('bytes_lit!' + v.obj.hex(), RefSort)
+    ex.assume(bytes_len(r) == len(v.obj))
+    try:
+        v.obj.decode('utf-8')
+        ok = True
+    except UnicodeDecodeError:
+        ok = False
+    ex.assume(valid_utf8(r) == ok)
+    return r
+
+
+def bytes_concat(ex, a, b):
+    if isinstance(a, VPy) and isinstance(b, VPy):
+        return VPy(a.obj + b.obj)
+    x, y = bytes_ref(ex, a), bytes_ref(ex, b)
+    r = z3.Function('bytes_cat', RefSort, RefSort, RefSort)(x, y)
+    ex.assume(bytes_len(r) == bytes_len(x) + bytes_len(y))
+    ex.assume(z3.Implies(z3.And(valid_utf8(x), valid_utf8(y)), valid_utf8(r)))
+    ex.used_assumptions.add('A-BUILTIN: bytes + bytes is an uninterpreted function with additive length')
+    return VOpaque(r, 'bytes')
 
 
 def opaque_cmp(ex, op, a, b, node):
@@ -572,6 +608,15 @@ def map_iter(ex, ptr, c, what, node):
     ks = z3.Const(ex.fresh_name('keys'), z3.SeqSort(kind_sort(c.kkind)))
     if c.order is not None:
         ks = c.order
+    else:
+        # the same dictionary with the syntactically same domain term (no insertion or deletion in between) is
+        # enumerated in the same order every time (CPython: insertion order): one key sequence per (object, domain)
+        ck = ('iterkeys', getattr(ptr, 'addr', None))
+        hit = ex.st.ghost.get(ck)
+        if hit is not None and hit[0].sort() == c.dom.sort() and z3.eq(hit[0], c.dom) and hit[1].sort() == ks.sort():
+            ks = hit[1]
+        elif ck[1] is not None:
+            ex.st.ghost[ck] = (c.dom, ks)
     i = z3.Int(ex.fresh_name('ki'))
     j = z3.Int(ex.fresh_name('kj'))
     k = z3.Const(ex.fresh_name('kk'), kind_sort(c.kkind))
@@ -1288,6 +1333,20 @@ def _dupdate(ex, fn, args, kw, node):
         c2.items.update(kw)
         ex.setcell(p, c2)
         return NONE
+    if isinstance(c, DictCell) and len(args) == 1 and not kw and isinstance(args[0], VPtr) \
+            and isinstance(ex.cell(args[0]), MapCell) and ex.cell(args[0]).vals is not None \
+            and ex.cell(args[0]).kkind == 'str' and ex.cell(args[0]).order is None \
+            and all(isinstance(k, str) for k in c.items):
+        # {literal keys}.update(symbolic str map): the map's entries win, the literal entries fill the rest
+        m = ex.cell(args[0])
+        vk = m.vkind
+        dom, vals = m.dom, m.vals
+        for x, v in c.items.items():
+            kx = z3.StringVal(x)
+            vals = z3.Store(vals, kx, z3.If(z3.Select(m.dom, kx), z3.Select(m.vals, kx), ex.flat(v, vk)))
+            dom = z3.Store(dom, kx, True)
+        ex.setcell(p, MapCell('str', vk, dom, vals=vals))
+        return NONE
     ex.limit('dict.update', node)
 
 
@@ -1546,7 +1605,7 @@ def _encode(ex, fn, args, kw, node):
     enc = ex.res(args[0]).concrete() if args else 'utf-8'
     if not isinstance(s, VStr) or enc is None or enc.lower().replace('_', '-') not in ('utf-8', 'utf8'):
         ex.limit('str.encode with this encoding', node)
-    b = z3.Const(ex.fresh_name('encoded'), RefSort)
+    b = z3.Function('utf8_encoded', z3.StringSort(), RefSort)(s.t)      # a function of the text: a spec can name it
     n = z3.Length(s.t)
     ex.assume(bytes_len(b) >= n)
     ex.assume(bytes_len(b) <= 4 * n)
